@@ -551,8 +551,19 @@ func writeEvidence(cfg *runConfig, p *Program, results []*FuncResult, sum map[st
 	sort.Strings(names)
 	fnset := map[string]bool{}
 	var notDischarged []string
+	knownSet := map[string]bool{}
+	for _, k := range known {
+		knownSet[k] = true
+	}
+	undecSet := map[string]bool{}
+	for _, u := range undecided {
+		undecSet[strings.SplitN(u, " ", 2)[0]] = true
+	}
 	for _, n := range names {
 		s := sum[n]
+		if knownSet[n] || undecSet[n] {
+			continue // reported separately; not part of the proof claim
+		}
 		obl++
 		inst += s.n
 		kinds[s.kind]++
